@@ -18,6 +18,27 @@ var propConfigs = map[string]propConfig{
 			"composition of per-subscription exactly-once (syncPubEvent) with once-per-matching-subscription (syncPublish) into the per-session statement is a paper step",
 			"an attempt is recorded whether or not the peer's queue accepted the message (a blocked peer loses messages: C07)",
 		}},
+	"C02": {ID: "C02", Level: "proof", Structural: []string{"immutable-fields", "owned-writes", "owned-calls"},
+		Explain: "Dealer call bookkeeping: calls / invocations / invocationByCall are related by an invariant (callsA/B/C) preserved by syncCall, syncYield, syncError, syncCancel and syncRemoveSession; per-operation postconditions state when a call is finished (entries removed) and call-site / send-site universals state that every RESULT/ERROR goes to the call's own caller with the call's request id.",
+		Assume: []string{"invocation ids have not wrapped (noIdWrap) and session ids are unique (uniqueSessionIDs)", "context.CancelFunc values (timerCancel) do not touch dealer state", "timer goroutine timing is not decided (trusted context.WithTimeout)", "exactly-once over a whole history is the induction over the per-action postconditions (paper step)"}},
+	"C03": {ID: "C03", Level: "proof", Structural: []string{"immutable-fields", "owned-writes", "owned-calls"},
+		Explain: "Dealer routing: best-match lookup (exact, longest prefix, wildcard) proved against a spec over all tables; callee selection per policy, INVOCATION content, fresh invocation ids, registration sharing rules and removal proved as postconditions / send-site universals over the registration invariant (dealerInv, dealerIndex).",
+		Assume: []string{"registration ids and invocation ids have not wrapped", "session ids are unique", "math/rand Int63n(n) returns a value in [0,n)"}},
+	"C05": {ID: "C05", Level: "proof", Structural: []string{"immutable-fields", "owned-writes", "owned-calls"},
+		Explain: "Session removal: broker.syncRemoveSession and dealer.syncRemoveSession are proved to leave no membership, registration, served invocation or own call of the session, preserving all invariants; refused calls leave no entry (syncCall).",
+		Assume: []string{"that onLeave is reached for every way a transport can die is not decided here"}},
+	"C12": {ID: "C12", Level: "proof",
+		Explain: "Disclosure and independence: prepareEvent builds fresh details per recipient and discloses the publisher only when requested, allowed and supported; syncCall discloses the caller only under the registration's or caller's request with the realm's permission; publish refuses a disallowed disclose_me.",
+		Assume: []string{"session meta events / session.get transport-auth stripping are covered only by the sweep (C04)"}},
+	"C13": {ID: "C13", Level: "proof",
+		Explain: "CANCEL state machine (syncCancel) proved by cases on mode and callee feature, including no-effect cases; mode validation in cancel; timeout forwarding condition in syncCall; the timer action performs a killnowait cancel with wamp.error.timeout.",
+		Assume: []string{"context.WithTimeout fires neither early nor late (trusted)", "overflow of time.Duration(timeout)*time.Millisecond for timeouts above ~292 years is not excluded"}},
+	"C18": {ID: "C18", Level: "proof",
+		Explain: "Meta events returned by syncRegister/syncUnregister/syncRemoveSession and sent by syncPubSubMeta; regMatch uses the same best-match function as routing.",
+		Assume: []string{}},
+	"C20": {ID: "C20", Level: "proof",
+		Explain: "Event history: syncSaveEvent keeps at most limit entries dropping the oldest, syncPubEvent saves exactly the unrestricted publications with id, arguments and subscription, independent of subscribers.",
+		Assume: []string{"github.com/gammazero/deque is a sequence ADT (PushBack/PopFront/Len/At)"}},
 	"C19": {ID: "C19", Level: "proof",
 		Explain: "URI validation, matching and id generation: the real wamp functions are verified against reference languages/spec functions built from the property statement, for all strings (SMT alphabet) and all 64-bit values.",
 		Assume: []string{
@@ -44,6 +65,7 @@ func (v *Verifier) runLemmas(prop, dir string, quickT, longT int) []oblResult {
 }
 
 func (v *Verifier) lemmaUnit(lm *Lemma) (unit *Unit) {
+	v.resetTables()
 	q := newQuery(v.u)
 	e := &Enc{v: v, q: q, u: v.u, oblCount: map[string]int{}}
 	unit = &Unit{Q: q, Enc: e}
@@ -56,6 +78,14 @@ func (v *Verifier) lemmaUnit(lm *Lemma) (unit *Unit) {
 			v.specErrors = append(v.specErrors, "lemma "+lm.Name+": "+unit.Err)
 		}
 		unit.Obls = e.obls
+		unit.Prelude = v.prelude()
+		unit.Funs = map[string]bool{}
+		for name := range v.funDecls {
+			unit.Funs[name] = true
+		}
+		for name := range v.opaqueDefs {
+			unit.Funs["op_"+name] = true
+		}
 	}()
 	st := q.entryState()
 	st.assume("(>= " + st.ap + " 10000)")
